@@ -479,4 +479,130 @@ SEEDS = [
          new="""            if gg_index != EMPTY_REF && self.node(gg_index).color == Color::Black {
                 self.fix_red_black_properties_after_insert(g_index, gg_index);
             }""", note='red-uncle recursion continues on the wrong colour'),
+
+    dict(id='LS1-maplist-pred-err-no-minus', props=['C13'], file='src/map/list.rs',
+         old="""    fn first_index_less(&self, key: K) -> u32 {
+        match self.buffer.binary_search_by(|e| e.key.cmp(&key)) {
+            Ok(index) => index as u32,
+            Err(index) => {
+                if index > 0 {
+                    (index - 1) as u32""",
+         new="""    fn first_index_less(&self, key: K) -> u32 {
+        match self.buffer.binary_search_by(|e| e.key.cmp(&key)) {
+            Ok(index) => index as u32,
+            Err(index) => {
+                if index > 0 {
+                    index as u32""", note='predecessor of a probe in a gap is the successor position'),
+    dict(id='LS2-keylist-first-less-reversed', props=['C13'], file='src/key/list.rs',
+         old="""        let index = self.buffer
+            .binary_search_by(|e| e.key.cmp(&key))
+            .unwrap_or_else(|index| index);""",
+         new="""        let index = self.buffer
+            .binary_search_by(|e| key.cmp(&e.key))
+            .unwrap_or_else(|index| index);""", note='comparator orientation reversed'),
+    dict(id='LS3-keylist-first-less-gt1', props=['C13'], file='src/key/list.rs',
+         old="""        if index > 0 {
+            unsafe { self.buffer.get_unchecked(index - 1) }.val
+        } else {
+            default
+        }
+    }
+
+    #[inline]
+    fn first_less_or_equal(""",
+         new="""        if index > 1 {
+            unsafe { self.buffer.get_unchecked(index - 1) }.val
+        } else {
+            default
+        }
+    }
+
+    #[inline]
+    fn first_less_or_equal(""", note='first_less ignores the smallest entry'),
+    dict(id='LS4-setlist-delete-swap-remove', props=['C13'], file='src/set/list.rs',
+         old="""        if let Ok(index) = self.buffer.binary_search_by_key(key, |v| *v.key()) {
+            self.buffer.remove(index);
+        }""",
+         new="""        if let Ok(index) = self.buffer.binary_search_by_key(key, |v| *v.key()) {
+            self.buffer.swap_remove(index);
+        }""", note='delete breaks the sort order'),
+    dict(id='LS5-maplist-insert-after-equal', props=['C13'], file='src/map/list.rs',
+         old="""            .binary_search_by_key(&key, |e| e.key)
+            .unwrap_or_else(|index| index);
+        self.buffer.insert(index, Entity::new(key, val));""",
+         new="""            .binary_search_by_key(&key, |e| e.key)
+            .unwrap_or_else(|index| index.saturating_sub(1));
+        self.buffer.insert(index, Entity::new(key, val));""", note='insert position off by one'),
+    dict(id='LS6-setlist-pred-ok-minus', props=['C13', 'C08'], file='src/set/list.rs',
+         old="""        match self.buffer.binary_search_by(|v| f(v.key())) {
+            Ok(index) => index as u32,""",
+         new="""        match self.buffer.binary_search_by(|v| f(v.key())) {
+            Ok(index) => if index > 0 { (index - 1) as u32 } else { EMPTY_REF },""", note='comparator form returns the strict predecessor on equality'),
+
+    dict(id='D7-setlist-steps-bare', props=['C13', 'C10'], file='src/set/list.rs',
+         old="""        if (index as usize) + 1 < self.buffer.len() {
+            index + 1
+        } else {
+            EMPTY_REF
+        }""",
+         new="""        index + 1""", note='step past the last position returns a non-existent position (D7)'),
+    dict(id='E1-setlist-after-le', props=['C13'], file='src/set/list.rs',
+         old="if (index as usize) + 1 < self.buffer.len() {", new="if (index as usize) + 1 <= self.buffer.len() {", note='off by one at the last position'),
+    dict(id='E2-setlist-before-ge1', props=['C13'], file='src/set/list.rs',
+         old="""        if index > 0 {
+            index - 1
+        } else {
+            EMPTY_REF
+        }""",
+         new="""        if index > 1 {
+            index - 1
+        } else {
+            EMPTY_REF
+        }""", note='predecessor of position 1 is reported as none'),
+    dict(id='NB1-set-after-climb-wrong-side', props=['C09'], file='src/set/tree.rs',
+         old="""                let parent = self.node(parent_index);
+                if parent.right != index {
+                    break;
+                }""",
+         new="""                let parent = self.node(parent_index);
+                if parent.left != index {
+                    break;
+                }""", note='successor climb continues while arriving from the left'),
+    dict(id='NB2-set-after-right-minimum', props=['C09'], file='src/set/tree.rs',
+         old="""        if node.right != EMPTY_REF {
+            self.find_left_minimum(node.right)""",
+         new="""        if node.right != EMPTY_REF {
+            self.find_right_minimum(node.right)""", note='successor is the maximum of the right subtree'),
+    dict(id='NB3-set-before-returns-index', props=['C09'], file='src/set/tree.rs',
+         old="""                if parent.left != index {
+                    break;
+                }
+                index = parent_index;
+                parent_index = parent.parent;
+            }
+            parent_index""",
+         new="""                if parent.left != index {
+                    break;
+                }
+                index = parent_index;
+                parent_index = parent.parent;
+            }
+            if parent_index == EMPTY_REF { parent_index } else { index }""", note='predecessor climb returns the last child instead of the parent'),
+    dict(id='H1-map-value-by-index-root', props=['C08'], file='src/map/tree.rs',
+         old="""    fn value_by_index(&self, index: u32) -> &V {
+        &self.node(index).entity.val""",
+         new="""    fn value_by_index(&self, index: u32) -> &V {
+        &self.node(if index == NIL_INDEX { self.root } else { index }).entity.val""", note='handle 0 silently redirected'),
+    dict(id='H2-setlist-delete-by-index-swap', props=['C08', 'C13'], file='src/set/list.rs',
+         old="""    fn delete_by_index(&mut self, index: u32) {
+        self.buffer.remove(index as usize);""",
+         new="""    fn delete_by_index(&mut self, index: u32) {
+        self.buffer.swap_remove(index as usize);""", note='delete by handle breaks order'),
+    dict(id='H3-set-delete-by-index-successor', props=['C08'], file='src/set/tree.rs',
+         old="""    fn delete_by_index(&mut self, index: u32) {
+        self.delete_index(index);""",
+         new="""    fn delete_by_index(&mut self, index: u32) {
+        let n = self.node(index);
+        let target = if n.left != EMPTY_REF && n.right == EMPTY_REF { n.left } else { index };
+        self.delete_index(target);""", note='deleting by handle removes the left child in one shape'),
 ]
